@@ -24,6 +24,7 @@ EXPLANATION = (
     " (R11) the flow value of every exact flow row is converted with float() before it meets the solver's == (numpy integer / float32 flows are accepted). "
     "publishes as the path's weight and the bottleneck DP reports the value of the path it reconstructs (C17.R5).  NOT decided: solver tolerance, float rounding, termination of the peeling, Eulerian "
     "reconstruction beyond C14's clause."
+    ' (R11, round 3) is_valid_solution() computes |flow - load| on Python numbers (fixed-width numpy scalars wrap around).'
 )
 DECIDED = ["10d equality present, complete and exact in all flow encoders", "product linking exact for every non-ignored edge and layer",
            "requested numeric type of weights", "greedy route publishes what it computed and only when admissible"]
